@@ -50,6 +50,23 @@ AUX_RECS = [
     mrec("A", "hu"),
 ]
 
+# a third small alphabet: names containing the separator used inside record keys, and synonym lists with repetitions
+AUX2_RECS = [
+    mrec("a", "b,c"),
+    mrec("a,b", "c"),
+    mrec("z9", "c", [], ["b,c"]),     # matches both of the above (through URI prefixes)
+    mrec("z8", "q", ["a,b", "a"]),    # ... through CURIE prefixes
+    mrec("n", "x", ["n1", "n1"]),     # brings the same new synonym twice
+    mrec("b", "x", ["n2"]),
+    mrec("n1", "y", [], ["y2", "y2"]),
+]
+AUX2_INITS = [
+    [],
+    [mrec("a", "x", ["b", "b"], ["y", "y"])],
+    [mrec("a", "b,c"), mrec("a,b", "c")],
+    [mrec("a", "b", ["c,d"], ["e,f"]), mrec("c", "e", ["d"], ["f"])],
+]
+
 INITS = [
     [],
     [mrec("a", "x", ["b", "B2"], ["y", "Y2"])],   # synonym lists that are not in sorted order
@@ -61,7 +78,7 @@ INITS = [
 
 def all_ops(tier, aux=False):
     ops = []
-    for r in (AUX_RECS if aux else RECS):
+    for r in (AUX2_RECS if aux == 2 else AUX_RECS if aux else RECS):
         for cs in (True, False):
             for merge in (False, True):
                 ops.append({"rec": rec_to_json(r), "cs": cs, "merge": merge, "via": "add_record"})
@@ -70,8 +87,8 @@ def all_ops(tier, aux=False):
     return ops
 
 
-QUERY_PREFIXES = ["a", "A", "b", "B2", "c", "d", "e", "f", "g", "ß", "SS", "ss", "k", "h", "", "zz"]
-QUERY_URIS = ["x", "X", "y", "Y2", "z", "w", "xy", "q", "xyzq", "v", "V", "v2", "hu", "yy", "a"]
+QUERY_PREFIXES = ["a", "A", "b", "B2", "c", "d", "e", "f", "g", "ß", "SS", "ss", "k", "h", "", "zz", "a,b", "z9", "z8", "n", "n1", "n2", "c,d"]
+QUERY_URIS = ["x", "X", "y", "Y2", "z", "w", "xy", "q", "xyzq", "v", "V", "v2", "hu", "yy", "a", "b,c", "c", "b", "e", "e,f", "f"]
 
 
 def queries():
@@ -267,7 +284,8 @@ def explore(tier, seed, procs=None):
     total = Merged()
     total.levels = []
     samples = []
-    for phase, (ops, inits, depth) in enumerate(((all_ops(tier), INITS, {"quick": 3, "thorough": 4}[tier]), (all_ops("thorough", aux=True), [[]], {"quick": 3, "thorough": 4}[tier]))):
+    for phase, (ops, inits, depth) in enumerate(((all_ops(tier), INITS, {"quick": 3, "thorough": 4}[tier]), (all_ops("thorough", aux=True), [[]], {"quick": 3, "thorough": 4}[tier]),
+                                                 (all_ops("thorough", aux=2), AUX2_INITS, {"quick": 2, "thorough": 3}[tier]))):
         bfs(total, samples, ops, inits, depth, seed, procs, phase)
         if total.violations or total.errors:
             break
